@@ -68,7 +68,11 @@ func init() {
 				}
 				spec.MaxIterations = N
 				spec.IgnoreDropped = true
-				p := c07Params{Spec: spec, Kinds: kinds, Barrier: barrier, Desc: fmt.Sprintf("mode=%s c=%d N=%d kinds=%s barrier=%v", mode, c, N, name, barrier)}
+				if mode != "filespan" {
+					// registered through CombineScenarios in a third of the cases
+					spec.Combine = pick(r, 0, 0, 2)
+				}
+				p := c07Params{Spec: spec, Kinds: kinds, Barrier: barrier, Desc: fmt.Sprintf("mode=%s c=%d N=%d kinds=%s barrier=%v combine=%d", mode, c, N, name, barrier, spec.Combine)}
 				cse := core.MkCase("C07", "run", i, seed, p)
 				i++
 				cse.Race = true
